@@ -219,3 +219,30 @@ def fam_posthoc(tier: str, rng: random.Random) -> Iterator[dict]:
                     if tier == "quick" and n == 3 and rng.random() < 0.5:
                         continue
                     yield h
+
+
+def fam_snap_names(tier: str, rng: random.Random) -> Iterator[dict]:
+    """C08: snapshots inherited together with postconditions; the same name captured twice - by two bases, by a
+    base and the override, by grand-parent and child - must be rejected when the class is created."""
+    for shape in ("chain2", "chain3", "twobases", "diamond", "siblings"):
+        n = len(SHAPES[shape])
+        mros = mro_of(SHAPES[shape])
+        for names in itertools.product([0, 1, 2], repeat=n):     # 0 = class does not define f; else the snapshot's name
+            if tier == "quick" and n == 4 and rng.random() < 0.4:
+                continue
+            b = Builder()
+            cls = []
+            for k, bases in enumerate(SHAPES[shape], 1):
+                members = []
+                if names[k - 1]:
+                    decos = [{"d": "ensure", "c": b.new("post")},
+                             {"d": "snapshot", "c": b.new("snap", name=names[k - 1])}]
+                    members.append({"name": "f", "kind": rng.choice(["fn", "prop"]), "decos": decos})
+                cls.append({"bases": list(bases), "mro": mros[k - 1], "dbc": True, "members": members, "invs": [],
+                            "mod": "app.models"})
+            kinds = {m["kind"] for c in cls for m in c["members"]}
+            if len(kinds) > 1:
+                for c in cls:
+                    for m in c["members"]:
+                        m["kind"] = "fn"
+            yield {"hid": 0, "tag": "snapnames-" + shape, "names": ["f", "g"], "con": b.con, "cls": cls, "posthoc": []}
